@@ -33,6 +33,9 @@ func c01Send(c *sendCtx) {
 		w.violate("send_panic", panicKey(c.res), "EncodeEncrypt panicked: %s (msg %s)", c.res.Panic, jsonOf(s.Msg))
 		return
 	case "err":
+		if c.res.RandSt.fired {
+			return // the injected failure fired (and no retry was asked for): an error is the right answer
+		}
 		w.violate("send_error", errKey(c.res.Err), "EncodeEncrypt refused a message of the encodable domain: %v (msg %s)", c.res.Err, jsonOf(s.Msg))
 		return
 	}
@@ -150,6 +153,7 @@ func adversarialRand(r *Rng, prev *RandScript) *RandScript {
 
 func genRx(r *Rng) *RxOpts {
 	rx := &RxOpts{PreHdr: r.Bool()}
+	rx.Hdr28 = rx.PreHdr && r.Chance(1, 4)
 	if r.Chance(1, 2) {
 		rx.Spare = Pick(r, 1, 16, 64, 512)
 	}
@@ -227,6 +231,14 @@ func genC01(r *Rng, idx int, tier string) *Scenario {
 		st.Obj = Pick(r, "long", "long", "long", "twin")
 		st.Rand = adversarialRand(r, prev)
 		prev = st.Rand
+		if !st.NilKey && r.Chance(1, 16) {
+			// the random source fails somewhere during this protect call; the sender retries on the same message
+			st.Rand = &RandScript{Seed: r.U64(), FailAt: r.Range(1, 2), FailMode: Pick(r, "err", "eof", "partial"), Chunk: Pick(r, 0, 0, 4)}
+			if st.Rand.Chunk > 0 {
+				st.Rand.FailAt = r.Range(1, 8)
+			}
+			st.Retry = true
+		}
 		sc.Steps = append(sc.Steps, st)
 		pending = append(pending, i)
 		flush(false)
